@@ -9,7 +9,9 @@ tie 1  : Coq model's predicted text (leaf texts measured on the real formatter) 
 tie 2  : Coq generate_body vs the real expansion (in-process harness): builder kind, names, fields, finish kind
 T-gen  : the four name sites of generate_body (unraw or not) are read off debug.rs on every run and must equal
          Model.current_sites (all unraw since fix 0354bd6); a site losing its unraw() shows up as `tie-name-sites`
-         and, on raw-identifier cases, as `raw-ident-name`
+         and, on raw-identifier cases, as `raw-ident-name` (run-time text) / `raw-ident-name-literal` (expansion).
+         The translator is fail-soft: an unrecognised site is a `tie-name-sites` record, the run continues with
+         Model.current_sites, and the run-time oracle (model-independent) names the concrete failing input
 """
 import json
 import os
@@ -586,11 +588,11 @@ def decision_tie(chk, inproc, cases, sites):
                                       val[1], G.id_rs(name), src, G.fmt_attr_tokens(fs, fs["list"][val[1]]["attr"][1])))
             # the decision-level oracle for names: std prints the identifier without r#
             if rc[1] != name["n"]:
-                chk.violation("raw-ident-name", {"case": dict(case, values=case.get("values", []), tag=case.get("tag", "extra")), "item": src, "unit": name, "printed_name": rc[1], "std_name": name["n"]},
+                chk.violation("raw-ident-name-literal", {"case": dict(case, values=case.get("values", []), tag=case.get("tag", "extra")), "item": src, "unit": name, "printed_name": rc[1], "std_name": name["n"]},
                               "name literal %r emitted for `%s` (std's derive uses %r)" % (rc[1], G.id_rs(name), name["n"]))
             for (fname, _), f in zip(rc[2], [f for f in fs["list"] if not (f["attr"] and f["attr"][0] in ("skip", "ignore"))]):
                 if fname is not None and fname != f["name"]["n"]:
-                    chk.violation("raw-ident-name", {"case": dict(case, values=case.get("values", []), tag=case.get("tag", "extra")), "item": src, "field": f["name"], "printed_name": fname},
+                    chk.violation("raw-ident-name-literal", {"case": dict(case, values=case.get("values", []), tag=case.get("tag", "extra")), "item": src, "field": f["name"], "printed_name": fname},
                                   "field name literal %r emitted for `%s`" % (fname, G.id_rs(f["name"])))
     return n, bad_items
 
